@@ -48,7 +48,8 @@
         const Vec3P w = toVecP<P>(rr::randVec(r, 2)), v = toVecP<P>((ext * rr::randVec(r, 2)));
         const V3 wL = toV(w), vL = toV(v); const LD vs = rr::maxAbs(vL) + D * rr::maxAbs(wL);
         { SVecP o = si * SVecP(w, v); V3 ra, rb; mulv6(refO, wL, vL, ra, rb);
-          k.sameV("spatial", "SpatialInertia*V.angular", toV(o[0]), ra, t * M * D * vs); k.sameV("spatial", "SpatialInertia*V.linear", toV(o[1]), rb, t * M * vs); }
+          LD ba, bb; absMulv6(refO, wL, vL, ba, bb);
+          k.sameV("spatial", "SpatialInertia*V.angular", toV(o[0]), ra, t * ba + t * M * D * vs); k.sameV("spatial", "SpatialInertia*V.linear", toV(o[1]), rb, t * bb + t * M * vs); }
         // additivity over a split of the cloud, scaling
         if (cl.m.size() >= 2) {
             Cloud a, b; for (size_t i = 0; i < cl.m.size(); ++i) { Cloud& q = (i < cl.m.size() / 2) ? a : b; q.m.push_back(cl.m[i]); q.r.push_back(cl.r[i]); }
